@@ -1,5 +1,6 @@
 import CM.Ops.Core
 import CM.Spec.RenderSpec
+import CM.Spec.Tokenizer
 namespace CM.Ops
 open CM CM.Model
 
@@ -63,6 +64,24 @@ def filterOp : Op
     | _, _ => bad
   | _ => bad
 
-def renderOps : List (String × Op) := [("render", renderOp), ("filter", filterOp)]
+/-- `tok <filterName> <htmlHex>` → the start-tag names the tokenizer sees that the predicate rejects ("-" = none). -/
+def tokOp : Op
+  | [filter, html] =>
+    match parseFilter filter, Bytes.ofHex html with
+    | some (some f), some h =>
+      let bad := (Spec.startTags h).filter f
+      if bad.isEmpty then "-" else ",".intercalate (bad.map Bytes.toHex)
+    | some none, some _ => "-"
+    | _, _ => bad
+  | _ => bad
+
+/-- `tags <htmlHex>` → all start-tag names (for cross-checking the transcription). -/
+def tagsOp : Op
+  | [html] => hexArg html fun h =>
+    let ts := Spec.startTags h
+    if ts.isEmpty then "-" else ",".intercalate (ts.map Bytes.toHex)
+  | _ => bad
+
+def renderOps : List (String × Op) := [("render", renderOp), ("filter", filterOp), ("tok", tokOp), ("tags", tagsOp)]
 
 end CM.Ops
